@@ -323,6 +323,9 @@ pub fn sock_path() -> String {
 pub enum Quiet {
     Yes,
     Storm,
+    /// a worker keeps burning CPU without entering the backend's handler (event log stable): it
+    /// spins on a descriptor it never consumes
+    Spin,
     Timeout,
 }
 
@@ -457,6 +460,8 @@ impl<V: VringT<Mem> + Clone + Send + Sync + 'static> Sess<V> {
         let start = self.be.st.lock().unwrap().events.len();
         let mut last = usize::MAX;
         let mut storm = false;
+        let mut spin = false;
+        let base: Vec<u64> = self.workers.iter().map(|w| sys::thread_cpu_ticks(w.tid)).collect();
         let ok = sys::wait_until(20_000, || {
             let n = self.be.st.lock().unwrap().events.len();
             if n > start + 20_000 {
@@ -466,10 +471,18 @@ impl<V: VringT<Mem> + Clone + Send + Sync + 'static> Sess<V> {
             let parked = (0..self.workers.len()).all(|i| self.worker_parked(i));
             let stable = n == last;
             last = n;
+            if stable && !parked && n == start {
+                spin = self.workers.iter().zip(base.iter()).any(|(w, b)| sys::thread_cpu_ticks(w.tid).saturating_sub(*b) >= 30);
+                if spin {
+                    return true;
+                }
+            }
             parked && stable
         });
         if storm {
             Quiet::Storm
+        } else if spin {
+            Quiet::Spin
         } else if ok {
             Quiet::Yes
         } else {
